@@ -79,7 +79,7 @@ class Obligation:
             at=at or (fi.qualname if fi is not None else (m.name if m else "<package>")),
             construct=stmt_text(node) if node is not None else "<function>",
             file=m.relpath if m else "?",
-            line=getattr(node, "lineno", 0) if node is not None else (fi.node.lineno if fi else 0),
+            line=(getattr(node, "lineno", 0) or getattr(getattr(node, "pattern", None), "lineno", 0)) if node is not None else (fi.node.lineno if fi else 0),
             message=message,
             path=path,
         )
